@@ -6,15 +6,15 @@ import sys
 from checks import lintlib as L
 
 WHAT = {
-    "L5-second-arg": "checkBoxUsage follows only the first non-arithmetic type argument: Foo becomes a union although used bare as %Foo in the 2nd argument of (pair int %Foo) - accepted",
-    "L5-repeat": "checkAllTypeRefs does not look inside [ ] repeats: Foo becomes a union although used bare in n*[%Foo] - accepted",
+    "L5-second-arg": "checkBoxUsage follows only the first non-arithmetic type argument (and compareTypes ignores %): Foo becomes a union although used bare in the 2nd argument of (pair int %Foo), the field becomes (pair int Foo) - accepted",
+    "L5-repeat": "checkAllTypeRefs does not look inside [ ] repeats: Foo becomes a union although used bare in n*[%Foo] (which becomes n*[Foo]) - accepted",
     "L7-bare-to-boxed": "compareTypes never compares TypeRef.Bare: field p:%Foo changed to p:Foo (wire gains the 4-byte constructor tag) - accepted",
     "repeat-element": "the contents of [ ] repeats are never compared: xs:n*[int] changed to xs:n*[long] - accepted",
     "repeat-scale": "the scale of a repeat is never compared: xs:n*[int] changed to xs:m*[int] - accepted",
     "tag-changed": "constructor tags are never compared: foo#00000001 changed to foo#00000002 (boxed encodings change) - accepted",
     "size-bit": "bits of a # field used as an array size are not treated as used: new field y:n.0?int on the size field n of xs:n*[int] - accepted",
     "constant-bit": "bits set by arithmetic constants passed to a # template argument are not treated as used: (T 5) with new field b:n.0?int - accepted",
-    "fewer-args-panic": "compareTypes indexes newType.Args[i] for every old argument: a reference that lost a type argument makes the linter panic (index out of range) instead of reporting an error",
+    "fewer-args-panic": "compareTypes indexes newType.Args[i] for every old argument: removing a template argument of a type declared after a combinator that references it makes the linter panic (index out of range) instead of reporting an error",
 }
 
 if __name__ == "__main__":
